@@ -17,7 +17,7 @@ ASSUMPTIONS = ['both runs use the same seed, chunking and marker table (for flat
 
 
 def budget(tier):
-    return {'quick': 200, 'thorough': 4000}[tier]
+    return {'quick': 480, 'thorough': 6000}[tier]
 
 
 @st.composite
